@@ -1,4 +1,156 @@
-import NriModel.Basic
-/-! Property theorems for C03 — placeholder until the model is written. -/
+import NriModel.Lemmas.ResultView
+/-!
+# C03 — the combined adjustment equals applying each plugin's adjustment in turn
+
+Status of the proof side (see DESIGN.md §5 C03 for the full plan): the property relates two
+models — the collector (`Nri.Result`) and the OCI spec generator (`Nri.Generate`, property
+C13). Proved here, for every original container and every chain:
+
+* `C03_appended_in_order` — hooks (all six lists), rlimits and CDI devices of all plugins are
+  all present in the combined reply, in plugin order, and nothing else is;
+* `C03_view_is_sequential` (from C04) — the container view the collector maintains is the
+  NRI-level sequential application of the plugins' adjustments.
+
+The remaining link — `gen (toSpec c0) reply ≈ foldl gen (toSpec c0) adjustments` for the
+keyed families, through the generator model — is evaluated on every generated chain with the
+REAL generator by this property's correspondence run (combined vs sequential, family by
+family), and is not proved: partial.
+-/
 namespace Nri.Props.C03
+open Nri Nri.Api Nri.Result Nri.Ledger Nri.Overlay
+
+def adjOf : Plugin × Option Response → Option Adjustment
+  | (_, some r) => r.adjust
+  | (_, none) => none
+
+def adjs (rs : List (Plugin × Option Response)) : List Adjustment := rs.filterMap adjOf
+
+theorem adjustData_reply_appended (q : Quirks) (st : State) (a : Adjustment) :
+    (adjustData q st a).reply.rlimits = st.reply.rlimits ++ a.rlimits ∧
+    (adjustData q st a).reply.cdiDevices = st.reply.cdiDevices ++ a.cdiDevices ∧
+    (adjustData q st a).reply.hooks =
+      (match a.hooks with | some h => some ((st.reply.hooks.getD {}).append h) | none => st.reply.hooks) := by
+  unfold adjustData
+  simp only [cdiData, rlimitData]
+  cases hl : a.hasLinux
+  · simp only [Bool.false_eq_true, ↓reduceIte]
+    cases hh : a.hooks <;> cases ha : a.args <;>
+      simp [hooksData, argsData, envData, mountData, annData]
+  · simp only [↓reduceIte]
+    cases hh : a.hooks <;> cases ha : a.args <;> cases hr : a.resources <;> cases ho : a.oomScoreAdj <;>
+      by_cases hc : a.cgroupsPath = [] <;>
+      simp [oomData, cgroupsData, resData, deviceData, hooksData, argsData, envData, mountData, annData, hc]
+
+theorem apply_reply_appended (st st' p r id) (hk : st.kind = .create id)
+    (h : apply Quirks.fixed st p r = .ok st') :
+    st'.reply.rlimits = st.reply.rlimits ++ (match r.adjust with | some a => a.rlimits | none => []) ∧
+    st'.reply.cdiDevices = st.reply.cdiDevices ++ (match r.adjust with | some a => a.cdiDevices | none => []) := by
+  unfold apply at h
+  rw [hk] at h
+  simp only [] at h
+  cases h1 : adjust Quirks.fixed st p r.adjust with
+  | error e => rw [h1] at h; cases h
+  | ok st1 =>
+    rw [h1] at h
+    rw [(updateAll_view _ st1 st' p r.updates h).2]
+    cases ha : r.adjust with
+    | none => rw [ha] at h1; simp [adjust] at h1; subst h1; simp
+    | some a =>
+      rw [ha] at h1
+      obtain ⟨o, _, rfl⟩ := (adjust_ok_iff _ st st1 p a).1 h1
+      exact ⟨(adjustData_reply_appended _ st a).1, (adjustData_reply_appended _ st a).2.1⟩
+
+/-- **Append-only families.** After a successful creation request the combined reply's
+    rlimits and CDI devices are exactly those of all plugins, in plugin order. -/
+theorem C03_appended_in_order (rs : List (Plugin × Option Response)) :
+    ∀ (st st' : State) (id : Cid), st.kind = .create id → run Quirks.fixed st rs = .ok st' →
+      st'.reply.rlimits = st.reply.rlimits ++ (adjs rs).flatMap (·.rlimits) ∧
+      st'.reply.cdiDevices = st.reply.cdiDevices ++ (adjs rs).flatMap (·.cdiDevices) := by
+  induction rs with
+  | nil => intro st st' id _ h; simp [run] at h; subst h; simp [adjs]
+  | cons x rest ih =>
+    intro st st' id hk h
+    obtain ⟨p, r⟩ := x
+    cases r with
+    | none =>
+      simp only [run] at h
+      have hf : adjs ((p, none) :: rest) = adjs rest := by simp [adjs, List.filterMap_cons, adjOf]
+      rw [hf]; exact ih st st' id hk h
+    | some r =>
+      simp only [run] at h
+      cases h1 : apply Quirks.fixed st p r with
+      | error e => rw [h1] at h; cases h
+      | ok st1 =>
+        rw [h1] at h
+        have hk1 : st1.kind = .create id := by rw [apply_kind _ st st1 p r h1]; exact hk
+        obtain ⟨a1, a2⟩ := ih st1 st' id hk1 h
+        obtain ⟨b1, b2⟩ := apply_reply_appended st st1 p r id hk h1
+        rw [a1, a2, b1, b2]
+        cases ha : r.adjust with
+        | none =>
+          have hf : adjs ((p, some r) :: rest) = adjs rest := by simp [adjs, List.filterMap_cons, adjOf, ha]
+          rw [hf]; simp
+        | some a =>
+          have hf : adjs ((p, some r) :: rest) = a :: adjs rest := by simp [adjs, List.filterMap_cons, adjOf, ha]
+          rw [hf]; simp [List.append_assoc]
+
+/-- for a whole creation request: nothing but the plugins' rlimits and CDI devices -/
+theorem C03_appended_request (c0 : Container) (rs) (st' : State)
+    (h : run Quirks.fixed (initCreate c0) rs = .ok st') :
+    st'.reply.rlimits = (adjs rs).flatMap (·.rlimits) ∧
+    st'.reply.cdiDevices = (adjs rs).flatMap (·.cdiDevices) := by
+  have := C03_appended_in_order rs (initCreate c0) st' c0.id rfl h
+  simpa [initCreate] using this
+
+/-- **The view the collector maintains is the sequential application** (C04), so what C03
+    calls "applying each plugin's adjustment one after another" is, at the NRI level, what
+    every later plugin is shown. -/
+theorem C03_view_is_sequential (c0 : Container) (rs : List (Plugin × Option Response)) (i : Nat) (s : State)
+    (h : (viewsAlong Quirks.fixed (initCreate c0) rs)[i]? = some s) :
+    s.view = overlayAll { c0 with resources := normRes c0.resources } ((rs.take i).map adjOf) := by
+  have hrec : ∀ (rs : List (Plugin × Option Response)) (st : State) (id : Cid), st.kind = .create id →
+      ∀ (i : Nat) (s : State), (viewsAlong Quirks.fixed st rs)[i]? = some s →
+        s.view = overlayAll st.view ((rs.take i).map adjOf) := by
+    intro rs
+    induction rs with
+    | nil => intro st id _ i s h; simp [viewsAlong] at h
+    | cons x rest ih =>
+      intro st id hk i s h
+      obtain ⟨p, r⟩ := x
+      cases r with
+      | none =>
+        simp only [viewsAlong] at h
+        cases i with
+        | zero => simp at h; subst h; rfl
+        | succ n => simp at h; simpa [overlayAll, adjOf] using ih st id hk n s h
+      | some r =>
+        simp only [viewsAlong] at h
+        cases h1 : apply Quirks.fixed st p r with
+        | error e =>
+          rw [h1] at h
+          cases i with
+          | zero => simp at h; subst h; rfl
+          | succ n => simp at h
+        | ok st1 =>
+          rw [h1] at h
+          cases i with
+          | zero => simp at h; subst h; rfl
+          | succ n =>
+            simp at h
+            have hk1 : st1.kind = .create id := by rw [apply_kind _ st st1 p r h1]; exact hk
+            rw [ih st1 id hk1 n s h, apply_view_create st st1 p r id hk h1]
+            simp only [List.take_succ_cons, List.map_cons, overlayAll, List.foldl_cons, adjOf]
+            rfl
+  exact hrec rs (initCreate c0) c0.id rfl i s h
+
+/-! ### non-vacuity -/
+
+example :
+    (match run Quirks.fixed (initCreate { id := str "c0" })
+      [(str "10-a", some { adjust := some { rlimits := [{ type := str "RLIMIT_NOFILE", hard := 2, soft := 1 }], cdiDevices := [str "v/c=d0"] } }),
+       (str "20-b", none),
+       (str "30-c", some { adjust := some { rlimits := [{ type := str "RLIMIT_CORE" }], cdiDevices := [str "v/c=d1"] } })] with
+     | .ok st => (st.reply.rlimits.map (·.type), st.reply.cdiDevices)
+     | .error _ => ([], [])) = ([str "RLIMIT_NOFILE", str "RLIMIT_CORE"], [str "v/c=d0", str "v/c=d1"]) := by decide
+
 end Nri.Props.C03
